@@ -111,6 +111,27 @@ func (a *statAcc) addRun(p *sdl.Program, o *model.Obs, nontrivial bool) {
 		a.Probes["scheduler-choice-among-several-parked"]++
 	}
 	probeReg(a.Probes, o)
+	// observation outside every claimed property: a component re-created after a failed
+	// attempt receives duplicate slice elements (candidates accumulate on the definition)
+	for _, c := range o.Cont {
+		if c.Err || c.Target == "" {
+			continue
+		}
+		dup := false
+		for _, ts := range c.Points {
+			seen := map[string]bool{}
+			for _, x := range ts {
+				if seen[x] {
+					dup = true
+				}
+				seen[x] = true
+			}
+		}
+		if dup {
+			a.Probes["observation:re-created-component-has-duplicate-slice-elements"]++
+			break
+		}
+	}
 }
 
 func probeReg(pr map[string]int, o *model.Obs) {
